@@ -408,8 +408,9 @@ struct ScriptedRunner : public CommandRunner {
         for (auto& p : hid) output += "Note: including file: " + p + "\n";
         output += "compiler chatter\n";
       } else if (!depfile.empty()) {
+        // compilers do not canonicalise what they print: every other name is spelled with a leading "./" or "x/../"
         string d = out0 + ":";
-        for (auto& p : hid) d += " " + p;
+        for (size_t hi = 0; hi < hid.size(); ++hi) d += " " + string(hi % 3 == 1 ? "./" : hi % 3 == 2 ? "zz/../" : "") + hid[hi];
         d += "\n";
         sc->disk.Put(depfile, d);
         CrashPoint("cmd-write");
